@@ -785,16 +785,6 @@ def _exc(f):
     return (f.get("case") or {}).get("exc") or {}
 
 
-def _m_ord_empty(f):
-    x = _exc(f)
-    c = f.get("case") or {}
-    single = c.get("single_column") or str(c.get("simplified", "")).count("[") == 2
-    return (f.get("kind") == "carving-raised" and x.get("class") == "TypeError" and "ord() expected a character" in x.get("msg", "")
-            and x.get("where", "").endswith("decode_varint") and bool(single))
-
-
-# the matchers of C08-01..06 and C08-08 are gone with the fix: commits 6eca1fa 0b2b453 1323ad4 4d9b308 1c3b10a
-# 0d6a473 56bb962; their minimal inputs stay in corpus/C08 so that a regression is reported as a VIOLATION
-MATCHERS = {
-    "c08_ord_empty_single_column": _m_ord_empty,
-}
+# every C08 finding is fixed (6eca1fa 0b2b453 1323ad4 4d9b308 1c3b10a 0d6a473 56bb962 a784e20): no matcher is left;
+# the minimal inputs stay in corpus/C08 so that a regression is reported as a VIOLATION
+MATCHERS = {}
